@@ -486,6 +486,41 @@ func TestC16(t *testing.T) {
 			}
 		}
 	}
+	// every year's day-star switch days: the 甲子 day nearest to each solstice (in the years where the two 甲子 days on either side of the solstice are almost equally near, or
+	// one of them is next to the solstice) and the days around them — the extreme calendar positions of the switch
+	// days occur in those years, some of them in a single year
+	for y := 1; y <= 9998; y++ {
+		if !ev.Mine(y) {
+			continue
+		}
+		ts := gen.Terms(y)
+		for _, i := range []int{1, 13, 25} {
+			sj := jd(ts[i])
+			back := ref.Mod(ref.DayPillar(sj), 60) // days since the last 甲子 day
+			for _, a := range []int{sj - back, sj - back + 60} {
+				if dist := ref.Mod(a-sj, 60); !(back >= 26 && back <= 34) && dist > 1 && dist < 59 {
+					continue // only the years where the choice between the two 甲子 days is close, or the day is the solstice's neighbour
+				}
+				for d := -1; d <= 1; d++ {
+					if j := a + d; j > ref.JDNMin+1 && j < ref.JDNMax-1 {
+						if yy, _, _ := ref.FromJDN(j); yy == y {
+							dayRules.Eval(dayCase{j})
+						}
+					}
+				}
+			}
+			// the solstice day itself with its lunar date at a month end or start: the hour star's half is decided by it
+			for d := -1; d <= 1; d++ {
+				if x := ts[i].AddDays(d); x.Y == y {
+					if ld := calendar.NewSolarFromYmd(x.Y, x.M, x.D).GetLunar().GetDay(); ld >= 29 || ld <= 1 {
+						for _, h := range []int{0, 9, 23} {
+							hourRule.Eval(hourCase{ref.DT{Y: x.Y, M: x.M, D: x.D, H: h, Mi: 30}})
+						}
+					}
+				}
+			}
+		}
+	}
 	// the same questions in scrambled order: a dense window of days (each shard its own 800 days around 2022-2031,
 	// shard 0 also AD 14-19) is asked again in generated permutations — the oracle is unchanged, only what was asked
 	// just before is new
